@@ -415,10 +415,11 @@ Definition kept_rel (src : str) (present : str -> bool) (r : rel) : bool :=
   end.
 
 Definition regularise {blob} (E : env blob) (p : phys blob) : phys blob :=
-  match load E p, lookup ct_uri p with
-  | Ok k, Some cb =>
-      let names := iter_part_names k in
-      let present := fun n => mem_str n (part_names E p) in
+  match lookup ct_uri p with
+  | None => p
+  | Some cb =>
+      let pn := part_names E p in
+      let present := fun n => mem_str n pn in
       (ct_uri, cb)
       :: (rels_item_name root, enc_rels E (filter (kept_rel root present) (rels_or_nil E p root)))
       :: flat_map (fun n =>
@@ -426,8 +427,7 @@ Definition regularise {blob} (E : env blob) (p : phys blob) : phys blob :=
             | Some b => [(n, b);
                          (rels_item_name n, enc_rels E (filter (kept_rel n present) (rels_or_nil E p n)))]
             | None => []
-            end) names
-  | _, _ => p
+            end) pn
   end.
 
 (** ---- side conditions used by the theorems ---- *)
